@@ -74,6 +74,21 @@ fn main() {
             let out = engine::run_check(check.as_ref(), tier_of(&args[3]));
             std::process::exit(out.exit_code);
         }
+        "seqscan" => {
+            // pppsim seqscan <ID> <tier> <limit>: runs 0..limit in order on one thread
+            if args.len() < 5 {
+                usage();
+            }
+            let id = args[2].clone();
+            let tier = tier_of(&args[3]);
+            let limit: u64 = args[4].parse().unwrap_or_else(|_| usage());
+            let t = std::thread::spawn(move || {
+                let check = checks::by_id(&id).unwrap_or_else(|| usage());
+                engine::seq_scan(check.as_ref(), tier, limit, 25);
+            });
+            let _ = t.join();
+            std::process::exit(0);
+        }
         "range" => {
             // pppsim range <ID> <tier> <lo> <hi>: execute the runs lo..hi and nothing else
             if args.len() < 6 {
